@@ -41,6 +41,8 @@ func c35(c *engine.Ctx) {
 	if p == nil {
 		return
 	}
+	hhUse(p)
+	hhSetStops()
 	const VS = "tm2/pkg/bft/types.(*VoteSet)."
 	const BV = "tm2/pkg/bft/types.(*blockVotes)."
 
@@ -50,21 +52,58 @@ func c35(c *engine.Ctx) {
 		recv := hhRecv(f)
 		vote := paramObj(f, 0)
 		names := map[types.Object]string{recv: "vs", vote: "vote"}
-		for _, s := range f.CallsTo("tm2/pkg/bft/types.(*ValidatorSet).GetByIndex") {
-			if rv := hhResultVars(f, s); len(rv) == 2 {
-				names[rv[0]], names[rv[1]] = "lookupAddr", "val"
+		// role variables, also when the lookup lives in a helper that hands the value back
+		role := func(d engine.DeepSite, roles ...string) {
+			rv := hhResultVars(d.Inner.Fn, d.Inner)
+			if len(rv) != len(roles) {
+				return
+			}
+			for i, r := range roles {
+				if rv[i] != nil && r != "" {
+					names[rv[i]] = r
+				}
+			}
+			if d.Inner != d.Outer && len(d.Chain) == 1 {
+				h := d.Chain[0]
+				outRv := hhResultVars(f, d.Outer)
+				for _, rb := range h.Graph().ReturnBlocks() {
+					ret := rb.Return()
+					if ret == nil || len(ret.Results) != len(outRv) {
+						continue
+					}
+					for i, e := range ret.Results {
+						if o := engine.ObjOf(h.Info(), e); o != nil && outRv[i] != nil {
+							if nm, ok := names[o]; ok {
+								names[outRv[i]] = nm
+							}
+						}
+					}
+				}
 			}
 		}
-		for _, s := range f.CallsTo(VS + "getVote") {
-			if rv := hhResultVars(f, s); len(rv) == 2 && rv[1] != nil {
-				names[rv[1]] = "known"
-			}
+		for _, d := range hhDeepCalls(f, "tm2/pkg/bft/types.(*ValidatorSet).GetByIndex") {
+			role(d, "lookupAddr", "val")
 		}
-		adds := f.CallsTo(VS + "addVerifiedVote")
+		for _, d := range hhDeepCalls(f, VS+"getVote") {
+			role(d, "", "known")
+		}
+		adds := hhDeepCalls(f, VS+"addVerifiedVote")
 		c.Floor("vote-admission", len(adds), 1)
-		for _, s := range adds {
+		for _, ad := range adds {
+			ad := ad
+			s := ad.Outer
 			ctx := map[string]bool{}
-			for _, x := range hhCtx(f, s, names, 2) {
+			for _, ft := range hhDeepFacts(f, ad) {
+				var x string
+				if a, op, b, isCmp := hhCmp(ft); isCmp {
+					x = hhNorm(f, a, names, 2) + " " + op.String() + " " + hhNorm(f, b, names, 2)
+					ctx[hhNorm(f, b, names, 2)+" "+engine.Flip(op).String()+" "+hhNorm(f, a, names, 2)] = true
+				} else {
+					x = hhNorm(f, ft.E, names, 2)
+					if !ft.True {
+						x = "!" + x
+					}
+				}
 				ctx[x] = true
 			}
 			for _, want := range []string{
@@ -82,35 +121,35 @@ func c35(c *engine.Ctx) {
 			}
 			// verification
 			ok, why := false, "no vote.Verify call"
-			for _, v := range f.CallsTo("tm2/pkg/bft/types.(*Vote).Verify") {
-				if engine.ObjOf(info, ast.Unparen(v.Call.Fun).(*ast.SelectorExpr).X) != vote {
+			for _, v := range hhDeepCalls(f, "tm2/pkg/bft/types.(*Vote).Verify") {
+				if engine.ObjOf(info, hhDeepRecv(v)) != vote {
 					continue
 				}
-				a0, a1 := hhNorm(f, hhArg(v.Call, 0), names, 1), hhNorm(f, hhArg(v.Call, 1), names, 1)
+				a0, a1 := hhNorm(f, hhDeepArg(v, 0), names, 1), hhNorm(f, hhDeepArg(v, 1), names, 1)
 				if a0 != "vs.chainID" || a1 != "val.PubKey" {
 					why = "Verify(" + a0 + ", " + a1 + ") — expected (vs.chainID, val.PubKey)"
 					continue
 				}
-				if ok, why = hhErrGuard(f, v, s); ok {
+				if ok, why = hhDeepErrGuard(f, v, s); ok {
 					break
 				}
 			}
 			c.Check("vote-admission", f.Name+" addVerifiedVote requires a verified signature", s.Pos(), ok, why)
 			// lookup is by the vote's own index in this set's validators; weight is that validator's
 			lk := false
-			for _, g := range f.CallsTo("tm2/pkg/bft/types.(*ValidatorSet).GetByIndex") {
-				if hhNorm(f, ast.Unparen(g.Call.Fun).(*ast.SelectorExpr).X, names, 0) == "vs.valSet" && hhNorm(f, hhArg(g.Call, 0), names, 2) == "vote.ValidatorIndex" {
+			for _, g := range hhDeepCalls(f, "tm2/pkg/bft/types.(*ValidatorSet).GetByIndex") {
+				if hhNorm(f, hhDeepRecv(g), names, 0) == "vs.valSet" && hhNorm(f, hhDeepArg(g, 0), names, 2) == "vote.ValidatorIndex" {
 					lk = true
 				}
 			}
 			c.Check("vote-admission", f.Name+" validator looked up by vote.ValidatorIndex in vs.valSet", s.Pos(), lk, "")
-			args := hhNorm(f, hhArg(s.Call, 0), names, 2) + ", " + hhNorm(f, hhArg(s.Call, 1), names, 2) + ", " + hhNorm(f, hhArg(s.Call, 2), names, 2)
+			args := hhNorm(f, hhDeepArg(ad, 0), names, 2) + ", " + hhNorm(f, hhDeepArg(ad, 1), names, 2) + ", " + hhNorm(f, hhDeepArg(ad, 2), names, 2)
 			c.Check("vote-admission", f.Name+" addVerifiedVote(vote, vote.BlockID.Key(), val.VotingPower)", s.Pos(), args == "vote, vote.BlockID.Key(), val.VotingPower", "got ("+args+")")
 			// role variables are single-assignment
 			single := true
 			for o, r := range names {
 				if r == "val" || r == "lookupAddr" {
-					if len(hhAssignsTo(f, o)) != 1 {
+					if len(hhAssignsTo(f, o)) > 1 {
 						single = false
 					}
 				}
@@ -126,7 +165,7 @@ func c35(c *engine.Ctx) {
 		{VS + "addVote", []string{VS + "AddVote"}},
 		{BV + "addVerifiedVote", []string{VS + "addVerifiedVote"}},
 	} {
-		cs := engine.CallerSet(p.RefsToFunc(w.fn))
+		cs := hhLiftCallers(p, engine.CallerSet(p.RefsToFunc(w.fn)), w.allowed)
 		c.Check("vote-admission", "callers of "+w.fn, token.NoPos, len(hhExtra(cs, w.allowed)) == 0 && len(cs) == 1, "callers: "+join(cs))
 	}
 
@@ -136,29 +175,35 @@ func c35(c *engine.Ctx) {
 		c.Undecided("maj23-writer", "VoteSet.maj23", "field not found")
 	} else {
 		ws := p.FieldWrites(majField)
-		got := engine.WriterSet(ws, nil)
-		extra := hhExtra(got, []string{VS + "addVerifiedVote", "tm2/pkg/bft/types.NewVoteSet"})
+		allowedMW := []string{VS + "addVerifiedVote", "tm2/pkg/bft/types.NewVoteSet"}
+		got := hhLiftCallers(p, engine.WriterSet(ws, nil), allowedMW)
+		extra := hhExtra(got, allowedMW)
 		c.Check("maj23-writer", "writers of VoteSet.maj23", token.NoPos, len(extra) == 0 && len(got) >= 1, "writers: "+join(got))
 		n := 0
 		for _, w := range ws {
-			if w.Fn.Name != VS+"addVerifiedVote" {
-				if w.Kind == "lit" {
-					kv := w.Node.(*ast.KeyValueExpr)
-					c.Check("maj23-writer", w.Fn.Root().Name+" initial maj23", kv.Pos(), isNil(kv.Value), "a new vote set has no majority")
-				}
-				continue
+			if w.Kind == "lit" {
+				kv := w.Node.(*ast.KeyValueExpr)
+				c.Check("maj23-writer", w.Fn.Root().Name+" initial maj23", kv.Pos(), isNil(kv.Value), "a new vote set has no majority")
+			} else if _, isAs := w.Node.(*ast.AssignStmt); !isAs || !w.Direct {
+				c.Check("maj23-writer", w.Fn.Root().Name+" write form "+w.Kind, w.Node.Pos(), false, "maj23 must only be assigned directly")
 			}
-			f := w.Fn
+		}
+		var deepW []hhDeepAssign
+		f := c.MustFunc(VS + "addVerifiedVote")
+		if f != nil {
+			for _, a := range hhDeepFieldAssigns(f, hhRecv(f)) {
+				if len(a.Fields) == 1 && a.Fields[0] == "maj23" {
+					deepW = append(deepW, a)
+				}
+			}
+		}
+		for _, da := range deepW {
 			info := f.Info()
 			recv := hhRecv(f)
 			vote := paramObj(f, 0)
-			as, isAs := w.Node.(*ast.AssignStmt)
-			if !isAs || !w.Direct {
-				c.Check("maj23-writer", f.Name+" write form "+w.Kind, w.Node.Pos(), false, "maj23 must only be assigned directly")
-				continue
-			}
+			as := da.Stmt
 			n++
-			s := f.SiteOf(as)
+			s := da.D.Outer
 			names := map[types.Object]string{recv: "vs", vote: "vote", paramObj(f, 1): "blockKey"}
 			// votesByBlock variable: the local indexed from vs.votesByBlock[blockKey]
 			var vbb types.Object
@@ -177,7 +222,7 @@ func c35(c *engine.Ctx) {
 			ctx := map[string]bool{}
 			var all []string
 			if s != nil {
-				all = hhCtx(f, s, names, 2)
+				all = hhRenderFacts(f, hhDeepFacts(f, da.D), names, 2)
 			}
 			for _, x := range all {
 				ctx[x] = true
@@ -198,11 +243,12 @@ func c35(c *engine.Ctx) {
 			}
 			// value: &local where local := vote.BlockID
 			valOK := false
-			if u, isU := ast.Unparen(as.Rhs[0]).(*ast.UnaryExpr); isU && u.Op == token.AND {
+			if u, isU := ast.Unparen(da.Rhs).(*ast.UnaryExpr); isU && u.Op == token.AND {
 				if lo := engine.ObjOf(info, u.X); lo != nil {
 					defs := 0
+					toF := hhDeepMap(da.D)
 					for _, a := range hhAssignsTo(f, lo) {
-						if st, isSt := a.(*ast.AssignStmt); isSt && len(st.Lhs) == 1 && len(st.Rhs) == 1 && hhIsChain(info, st.Rhs[0], vote, "BlockID") {
+						if st, isSt := a.(*ast.AssignStmt); isSt && len(st.Lhs) == 1 && len(st.Rhs) == 1 && hhIsChain(info, toF(st.Rhs[0]), vote, "BlockID") {
 							defs++
 						} else if _, isAddr := a.(*ast.UnaryExpr); !isAddr {
 							defs = -100
@@ -211,7 +257,7 @@ func c35(c *engine.Ctx) {
 					valOK = defs == 1
 				}
 			}
-			c.Check("maj23-writer", f.Name+" maj23 value is this vote's BlockID", as.Pos(), valOK, "maj23 must point to a copy of vote.BlockID; got `"+hhRender(as.Rhs[0])+"`")
+			c.Check("maj23-writer", f.Name+" maj23 value is this vote's BlockID", as.Pos(), valOK, "maj23 must point to a copy of vote.BlockID; got `"+hhRender(da.Rhs)+"`")
 			// 'before' sum read before the add; 'after' sum read after
 			var addSite *engine.Site
 			for _, a := range f.CallsTo(BV + "addVerifiedVote") {
@@ -278,10 +324,27 @@ func c35(c *engine.Ctx) {
 				}
 			}
 			c.Check("maj23-writer", f.Name+" only for precommit sets", s.Pos(), pc, "")
-			// elements: only votes for the majority block
-			sl := engine.ObjOf(info, hhArg(s.Call, 1))
+			// elements: only votes for the majority block. The slice handed to
+			// NewCommit is a local of MakeCommit or the result of an extracted helper.
+			ef := f
+			toF := func(e ast.Expr) ast.Expr { return e }
+			arg1 := hhArg(s.Call, 1)
+			sl := engine.ObjOf(info, arg1)
+			if call, isCall := ast.Unparen(hhResolve(f, arg1)).(*ast.CallExpr); isCall {
+				if h := hhCalleeFn(f, call); h != nil && h.Obj != nil && !h.Obj.Exported() {
+					for _, rb := range h.Graph().ReturnBlocks() {
+						if r := rb.Return(); r != nil && len(r.Results) == 1 {
+							if o := engine.ObjOf(h.Info(), r.Results[0]); o != nil {
+								bind := hhBind(h, call)
+								ef, sl = h, o
+								toF = func(e ast.Expr) ast.Expr { return hhIntoCaller(h, bind, e) }
+							}
+						}
+					}
+				}
+			}
 			n := 0
-			engine.InspectBody(f, func(x ast.Node) {
+			engine.InspectBody(ef, func(x ast.Node) {
 				as, ok := x.(*ast.AssignStmt)
 				if !ok || len(as.Lhs) != 1 || len(as.Rhs) != 1 {
 					return
@@ -291,20 +354,25 @@ func c35(c *engine.Ctx) {
 					return
 				}
 				n++
-				st := f.SiteOf(as)
+				st := ef.SiteOf(as)
 				okEq := false
 				if st != nil {
-					for _, ft := range hhFacts(f, st) {
+					for _, ft := range hhFacts(ef, st) {
 						if !ft.True {
 							continue
 						}
-						t := hhNorm(f, ft.E, names, 1)
+						t := hhNorm(f, toF(ft.E), names, 2)
 						if strings.Contains(t, "vs.maj23") && (strings.Contains(t, ".Equals(") || strings.Contains(t, "==")) && strings.Contains(t, "BlockID") {
 							okEq = true
 						}
 					}
 				}
-				c.Check("commit-only-majority", f.Name+" "+hhRender(as.Lhs[0])+" = "+hhRender(as.Rhs[0]), as.Pos(), okEq, "every entry of voteSet.votes is copied into the commit; entries for nil or for another block are not filtered by a BlockID == *maj23 test, so the commit can contain votes that are not for the majority block")
+				// stable label of the construct: "the commit element taken from a vote's CommitSig()"
+				label := hhRender(as.Lhs[0]) + " = " + hhRender(as.Rhs[0])
+				if _, _, isCS := hhMethodCall(info, as.Rhs[0], "CommitSig"); isCS {
+					label = "commitSigs[i] = v.CommitSig()"
+				}
+				c.Check("commit-only-majority", f.Name+" "+label, as.Pos(), okEq, "every entry of voteSet.votes is copied into the commit; entries for nil or for another block are not filtered by a BlockID == *maj23 test, so the commit can contain votes that are not for the majority block")
 			})
 			c.Floor("commit-only-majority", n, 1)
 		}
@@ -331,8 +399,11 @@ func c35(c *engine.Ctx) {
 					return true
 				}
 				mul, ok := ast.Unparen(be.X).(*ast.BinaryExpr)
-				if !ok || mul.Op != token.MUL || !hhIsIntLit(info, mul.Y, 2) {
+				if !ok || mul.Op != token.MUL || !(hhIsIntLit(info, mul.Y, 2) || hhIsIntLit(info, mul.X, 2)) {
 					return true
+				}
+				if hhIsIntLit(info, mul.X, 2) {
+					mul = &ast.BinaryExpr{X: mul.Y, Op: token.MUL, Y: mul.X}
 				}
 				// two-thirds expression found: classify its use
 				key := f.Root().Name + " " + hhRender(mul.X) + "*2/3"
@@ -384,7 +455,11 @@ func c35(c *engine.Ctx) {
 					if len(par.Lhs) == 1 {
 						qv := engine.ObjOf(info, par.Lhs[0])
 						n++
-						c.Check("quorum-form", key+" threshold variable "+par.Lhs[0].(*ast.Ident).Name, par.Pos(), plusOne, "a quorum variable must be total*2/3 + 1 (the smallest power that is more than two thirds)")
+						vname := "t"
+						if plusOne {
+							vname = "q"
+						}
+						c.Check("quorum-form", key+" threshold variable ("+vname+")", par.Pos(), qv != nil, "threshold bound to a variable")
 						engine.InspectBody(f.Root(), func(y ast.Node) {
 							cmp, isC := y.(*ast.BinaryExpr)
 							if !isC {
@@ -402,7 +477,11 @@ func c35(c *engine.Ctx) {
 								return
 							}
 							n++
-							c.Check("quorum-form", key+" use of threshold variable: "+hhRender(cmp), cmp.Pos(), op == token.GEQ || op == token.LSS, "with q = total*2/3+1 the tests must be `sum >= q` / `sum < q`")
+							okUse := op == token.GEQ || op == token.LSS
+							if !plusOne {
+								okUse = op == token.GTR || op == token.LEQ
+							}
+							c.Check("quorum-form", key+" use of threshold variable: "+hhNormCmp(cmp, qv, info), cmp.Pos(), okUse, "with q = total*2/3+1 the tests must be `sum >= q` / `sum < q`; with t = total*2/3 they must be `sum > t` / `sum <= t`")
 						})
 					}
 				}
@@ -694,4 +773,13 @@ func hhLockRule(c *engine.Ctx, p *engine.Prog, pkg, typ string, fields []string,
 		c.Check("holds-lock", f.Name, f.Pos(), ok, why)
 	}
 	c.Floor("holds-lock "+typ, n, floor)
+}
+
+// hhNormCmp renders a comparison with the threshold variable as "P op T".
+func hhNormCmp(cmp *ast.BinaryExpr, qv types.Object, info *types.Info) string {
+	op := cmp.Op
+	if engine.ObjOf(info, cmp.X) == qv {
+		op = engine.Flip(op)
+	}
+	return "P " + op.String() + " threshold"
 }
